@@ -16,6 +16,8 @@ Decided statically (DESIGN.md section 5, C20):
   R-C20-4  every record call appends one event of its own type to getCurrentEventList(); a new chunk is
            started exactly when there is none or the last one holds THREAD_EVENT_CHUNK_SIZE events; saveLog
            walks all threads, all chunks, all events in order while holding the registry mutex.
+  R-C20-5  purity of the image writers: no mutable object with static / thread storage duration in writeImage, the
+           format wrappers and their helpers.
 Not decided: equality of decoded pixel values (run-time contents), JSON escaping of user supplied names,
 nesting of begin/end pairs in the recorded history, what fopen/fwrite/ofstream do.
 """
@@ -69,6 +71,7 @@ class ImgFn:
         self.locals = {}       # decl id -> ('ptr', base, offsetPoly, unit) | Poly
         self.mins = {}         # min atom -> (Poly, Poly)
         self.bind = {}         # parameter of an inlined helper -> value of the argument
+        self.vecs = {}         # local std::vector used as a buffer: decl id -> (name, element size)
         self.depth = 0
         self.carry = {}        # carry atom -> dict(var, loop, amount)
         self.order = []
@@ -243,6 +246,10 @@ class ImgFn:
                     res = ('ptr', p['name'], Poly.const(0), sz)
             elif isinstance(self.locals.get(did), tuple):
                 res = self.locals[did]
+        elif k == 'CXXMemberCallExpr' and tu.sd(e0).get('q', '').split('::')[-1] == 'data' and \
+                tu.ref_decl(tu.call_parts(e0)[1]) in self.vecs:
+            nm_, esz_ = self.vecs[tu.ref_decl(tu.call_parts(e0)[1])]
+            res = ('ptr', '@' + nm_, Poly.const(0), esz_)
         elif k == 'CallExpr' and tu.sd(e0).get('q') in ('__builtin_alloca', 'alloca'):
             n = self.ev().ev(tu.call_parts(e0)[2][0])
             if n is not None:
@@ -373,8 +380,34 @@ def check_write_image(ctx, tu, f):
                 return      # pointer bump, accounted for by the enclosing loop
             if k in ('WhileStmt', 'DoStmt', 'CXXForRangeStmt', 'GotoStmt'):
                 raise Undecided('loop construct `%s`' % k)
+            if k == 'CXXMemberCallExpr' and tu.sd(n).get('q', '').split('::')[-1] in ('resize', 'assign') and \
+                    tu.ref_decl(tu.call_parts(n)[1]) in img.vecs and tu.call_parts(n)[2]:
+                did_ = tu.ref_decl(tu.call_parts(n)[1])
+                cnt = img.ev().ev(tu.call_parts(n)[2][0])
+                if cnt is None:
+                    raise Undecided('size in `%s` has no normal form' % tu.show(n))
+                nm_, esz_ = img.vecs[did_]
+                allocs[:] = [a for a in allocs if a[0]['id'] != did_]
+                allocs.append((tu.node(did_), ('alloc', cnt * esz_, esz_), list(stack)))
+                return
             if k == 'DeclStmt':
                 for vd in n.get('inner', ()):
+                    vm = re.match(r'^std::vector<(.+?)(, std::allocator<.*>)?>$', vd.get('type', {}).get('qualType', '')) \
+                        if isinstance(vd, dict) and vd.get('kind') == 'VarDecl' else None
+                    if vm:
+                        esz_ = type_size(tu, vm.group(1))
+                        if esz_ is None:
+                            raise Undecided('element size of `%s` unknown' % vd.get('type', {}).get('qualType'))
+                        img.vecs[vd['id']] = (vd.get('name', 'buf'), esz_)
+                        init_ = tu.strip(tu.kids(vd)[0]) if tu.kids(vd) else None
+                        args_ = tu.call_parts(init_)[2] if init_ is not None and init_.get('kind') == 'CXXConstructExpr' else []
+                        args_ = [a for a in args_ if a.get('kind') != 'CXXDefaultArgExpr']
+                        if args_:
+                            cnt = img.ev().ev(args_[0])
+                            if cnt is None:
+                                raise Undecided('size of the vector `%s` has no normal form' % vd.get('name'))
+                            allocs.append((vd, ('alloc', cnt * esz_, esz_), list(stack)))
+                        continue
                     if isinstance(vd, dict) and vd.get('kind') == 'VarDecl' and tu.kids(vd):
                         init = tu.kids(vd)[0]
                         pv = img.ptr_value(init)
@@ -863,6 +896,41 @@ def check_header_use(ctx, tu, f):
     ctx.ok(R, inst, 'fprintf(file, header, sizeX, sizeY) dominates every fwrite', tu.loc(n))
 
 
+def check_purity(ctx, tu):
+    """R-C20-5: the file written depends only on the arguments: no object with static storage duration is written
+    on the way from a format wrapper through writeImage and its helpers"""
+    R = 'R-C20-5'
+    ctx.describe(R, 'writeImage, the format wrappers and their helpers keep no mutable state with static / thread storage '
+                 'duration (two images written at the same time, or one after the other, cannot influence each other)')
+    n = 0
+    seen = set()
+    for f in sorted(tu.functions.values(), key=lambda x: (x['f'], x['l'])):
+        if f['dep'] or tu.body(f) is None or not f['q'].startswith(UTIL) or tu.fn_file(f) != IMG_H:
+            continue
+        n += 1
+        pat = re.sub(r'<.*', '', f['q'].replace(UTIL, ''))
+        inst = '%s %s' % (f['q'].replace(UTIL, ''), ', '.join(f.get('targs') or []))
+        bad = []
+        for x in tu.walk(tu.body(f)):
+            if x.get('kind') == 'VarDecl' and (x.get('storageClass') == 'static' or x.get('tls')):
+                qt = x.get('type', {}).get('qualType', '')
+                if qt.startswith('const ') or x.get('constexpr'):
+                    continue
+                bad.append(x)
+        for x in bad:
+            key = '%s|%s|%s|static-state' % (R, tu.fn_file(f), pat)
+            if key in seen:
+                continue
+            seen.add(key)
+            ctx.violation(R, inst, 'the local `%s` (%s) has static storage duration and is written while an image is converted: '
+                          'all calls share it, so two threads writing images at the same time convert their rows into the same '
+                          'memory (and a resize by one invalidates the pointer used by the other); the file no longer depends on '
+                          'the arguments alone' % (x.get('name'), x.get('type', {}).get('qualType', '?')), tu.fn_loc(f), key=key)
+        if not bad:
+            ctx.ok(R, inst, 'no mutable static / thread-local state', tu.fn_loc(f))
+    ctx.floor(R, n, 12, 'six writeImage instantiations and six format wrappers')
+
+
 def check_images(ctx, tu):
     ctx.describe('R-C20-1', 'per writeImage instantiation: loops y<sizeY, x<sizeX, c<N; source index = row(y)*sizeX pixels + '
                  'PIXEL_COMP*x + channel(c) with 0 <= channel(c) < PIXEL_COMP; sizeof(PIXEL_T) == PIXEL_COMP*sizeof(COMP_T); '
@@ -878,6 +946,7 @@ def check_images(ctx, tu):
         check_header_use(ctx, tu, f)
     ctx.floor('R-C20-1', n, 6, 'writeImage instantiations reachable from the six format wrappers')
     check_wrappers(ctx, tu)
+    check_purity(ctx, tu)
 
 
 # =====================================================================================================
@@ -1044,7 +1113,19 @@ class JsonFlow:
             sd, obj, args = tu.call_parts(e)
             nm = sd.get('q', '').split('::')[-1]
             if nm != 'operator<<':
-                return None
+                callee = tu.callee_fn(e)
+                if callee is None or tu.cfg(callee) is None:
+                    return None
+                rets = [tu.ref_decl(tu.kids(r)[0]) for b, i, r in tu.cfg(callee).stmts() if r.get('kind') == 'ReturnStmt' and tu.kids(r)]
+                if not rets or len(set(rets)) != 1 or rets[0] is None:
+                    return None
+                pidx = [i for i, p_ in enumerate(callee.get('params', [])) if p_['id'] == rets[0]]
+                if pidx:
+                    if pidx[0] >= len(args):
+                        return None
+                    e = tu.strip(args[pidx[0]])
+                    continue
+                return rets[0]          # a captured variable: the lambda body names the enclosing function's stream
             e = tu.strip(obj if obj is not None else args[0])
         if e is not None and e.get('kind') == 'DeclRefExpr':
             return e.get('referencedDecl', {}).get('id')
@@ -1057,13 +1138,17 @@ class JsonFlow:
             return args[0] if args else None
         return args[1] if len(args) == 2 else None
 
-    def classify(self, e):
+    def classify(self, e, st=None):
         """('lit', text) | ('num',) | ('user',) | ('call', fn) | None"""
         tu = self.tu
         x = tu.strip(e, casts=True)
         if x is None:
             return None
         k = x.get('kind')
+        if k == 'DeclRefExpr' and st is not None:
+            v = dict(st[6]).get('str:' + str(x.get('referencedDecl', {}).get('id')))
+            if isinstance(v, str):
+                return ('lit', v)
         if k == 'StringLiteral':
             v = c_string(x.get('value'))
             return ('lit', v) if v is not None else None
@@ -1178,6 +1263,11 @@ class JsonFlow:
         k = n.get('kind')
         if k == 'DeclStmt':
             for vd in n.get('inner', ()):
+                if isinstance(vd, dict) and vd.get('kind') == 'VarDecl' and tu.kids(vd) and \
+                        re.match(r'^const char \*', vd.get('type', {}).get('qualType', '')):
+                    lit = tu.strip(tu.kids(vd)[0], casts=True)
+                    txt = c_string(lit.get('value')) if lit is not None and lit.get('kind') == 'StringLiteral' else None
+                    st = self.set_flag(st, 'str:' + vd['id'], txt)
                 if isinstance(vd, dict) and vd.get('kind') == 'VarDecl' and vd.get('name', '').startswith('__begin'):
                     st = self.set_flag(st, 'first:' + vd['id'], 1)
                 if isinstance(vd, dict) and vd.get('kind') == 'VarDecl' and vd.get('type', {}).get('qualType') == 'bool':
@@ -1192,6 +1282,24 @@ class JsonFlow:
             did0 = tu.ref_decl(tu.kids(n)[0])
             if did0 is not None and ('nz:' + did0) in dict(st[6]):
                 st = self.set_flag(st, 'nz:' + did0, None)
+        if k == 'BinaryOperator' and n.get('opcode') == '=' and ('str:' + str(tu.ref_decl(tu.kids(n)[0]))) in dict(st[6]) or \
+                (k == 'BinaryOperator' and n.get('opcode') == '=' and tu.sd(tu.strip(tu.kids(n)[0])).get('ct', '').startswith('const char *')
+                 and tu.ref_decl(tu.kids(n)[0]) is not None):
+            l, r = tu.kids(n)
+            lit = tu.strip(r, casts=True)
+            txt = c_string(lit.get('value')) if lit is not None and lit.get('kind') == 'StringLiteral' else None
+            return [self.set_flag(st, 'str:' + tu.ref_decl(l), txt)]
+        if k == 'CXXOperatorCallExpr' and tu.sd(n).get('q', '').split('::')[-1] == 'operator()':
+            callee = tu.callee_fn(n)
+            if callee is not None and tu.cfg(callee) is not None and depth < 4:
+                uses = any(x.get('kind') == 'DeclRefExpr' and x.get('referencedDecl', {}).get('id') == stream_id
+                           for x in tu.walk(tu.body(callee)))
+                if uses:
+                    outs = self.run_fn(callee, stream_id, st, depth + 1)
+                    if BAD in outs:
+                        self.report(f, 'helper', 'the lambda called here breaks the JSON skeleton (see its own report)', n, at, pred)
+                    return list(outs) or [st]
+            return [st]
         if k == 'BinaryOperator' and n.get('opcode') == '=':
             l, r = tu.kids(n)
             did = tu.ref_decl(l)
@@ -1230,7 +1338,7 @@ class JsonFlow:
                 if BAD in outs:
                     self.report(f, 'inserter', 'the inserter %s called here breaks the JSON skeleton' % callee['q'], n, at, pred)
                 return list(outs) or [st]
-            c = self.classify(opnd) if opnd is not None else None
+            c = self.classify(opnd, st) if opnd is not None else None
             if c is None:
                 self.undec.setdefault(tu.show(opnd) if opnd is not None else '?', n)
                 return [BAD]
@@ -1422,6 +1530,9 @@ def check_savelog(ctx, tu):
         if n.get('kind') == 'VarDecl' and re.search(r'\b(std::)?(basic_)?ofstream\b|basic_ostream|ostringstream|stringstream',
                                                      n.get('type', {}).get('qualType', '')):
             streams.append(n)
+    files = [x for x in streams if re.search(r'ofstream', x.get('type', {}).get('qualType', ''))]
+    if len(streams) != 1 and len(files) == 1:
+        streams = files
     if len(streams) != 1:
         ctx.undecided(R, inst, 'expected one local output stream, found %d' % len(streams), tu.fn_loc(f))
         return
@@ -1770,10 +1881,92 @@ def range_init(tu, n):
     return (ks[0] if ks else None), loopvar, body
 
 
-def loop_kind(tu, range_expr):
+UNIQUE_KEY_RX = re.compile(r'^std::(map|unordered_map|set|unordered_set)<')
+MULTI_RX = re.compile(r'^std::(multimap|unordered_multimap|multiset|unordered_multiset|vector|deque|list)<')
+
+
+def flows_into(tu, e, body, depth=0, seen=None):
+    """names of members / variables whose values can reach expression e inside `body` (initialisers, assignments and
+    stream insertions into the locals e mentions)"""
+    seen = set() if seen is None else seen
+    names = set()
+    if e is None or depth > 5:
+        return names
+    for x in tu.walk(e):
+        if x.get('kind') == 'MemberExpr':
+            names.add(x.get('name'))
+        if x.get('kind') == 'DeclRefExpr':
+            did = x.get('referencedDecl', {}).get('id')
+            names.add(('var', did))
+            if did in seen:
+                continue
+            seen.add(did)
+            vd = tu.node(did)
+            if vd is not None and vd.get('kind') == 'VarDecl' and tu.kids(vd):
+                names |= flows_into(tu, tu.kids(vd)[0], body, depth + 1, seen)
+            for y in tu.walk(body):
+                k = y.get('kind')
+                if k in ('BinaryOperator', 'CompoundAssignOperator') and y.get('opcode') in ('=', '+=') and \
+                        tu.ref_decl(tu.kids(y)[0]) == did:
+                    names |= flows_into(tu, tu.kids(y)[1], body, depth + 1, seen)
+                if k in ('CXXOperatorCallExpr', 'CXXMemberCallExpr'):
+                    sd, obj, args = tu.call_parts(y)
+                    nm = sd.get('q', '').split('::')[-1]
+                    tgt = obj if obj is not None else (args[0] if args else None)
+                    root = tgt
+                    hops = 0
+                    while root is not None and hops < 50:      # a << b << c : the stream is the leftmost operand
+                        hops += 1
+                        r0 = tu.strip(root)
+                        if r0 is not None and r0.get('kind') in ('CXXOperatorCallExpr', 'CXXMemberCallExpr') and \
+                                tu.sd(r0).get('q', '').split('::')[-1] == 'operator<<':
+                            s2, o2, a2 = tu.call_parts(r0)
+                            root = o2 if o2 is not None else (a2[0] if a2 else None)
+                            continue
+                        break
+                    if nm in ('operator<<', 'operator=', 'operator+=', 'append', 'assign', 'push_back') and tu.ref_decl(root) == did:
+                        for a in (args if obj is not None else args[1:]):
+                            names |= flows_into(tu, a, body, depth + 1, seen)
+    return names
+
+
+def derived_thread_containers(tu, f):
+    """local containers filled inside a range-for over the registry threadTrace:
+    decl id -> dict(type, unique (bool), key names, node, loopvar)"""
+    out = {}
+    for n in tu.walk(tu.body(f)):
+        if n.get('kind') != 'CXXForRangeStmt':
+            continue
+        r, lv, body = range_init(tu, n)
+        if r is None or tu.member_of_this(r) != 'threadTrace' or body is None or lv is None:
+            continue
+        for x in tu.walk(body):
+            if x.get('kind') not in ('CXXOperatorCallExpr', 'CXXMemberCallExpr'):
+                continue
+            sd, obj, args = tu.call_parts(x)
+            nm = sd.get('q', '').split('::')[-1]
+            did = tu.ref_decl(obj) if obj is not None else None
+            vd = tu.node(did) if did else None
+            if vd is None or vd.get('kind') != 'VarDecl' or nm not in ('operator[]', 'insert', 'emplace', 'emplace_back', 'push_back',
+                                                                       'try_emplace', 'insert_or_assign', 'emplace_hint'):
+                continue
+            ct = re.sub(r'\bconst\s+', '', tu.sd(tu.strip(obj)).get('ct', '')).replace('&', '').strip()
+            if not (UNIQUE_KEY_RX.match(ct) or MULTI_RX.match(ct)):
+                continue
+            key = args[0] if args else None
+            kn = flows_into(tu, key, body, 0, {lv['id']}) if key is not None else set()
+            d = out.setdefault(did, {'type': ct, 'unique': bool(UNIQUE_KEY_RX.match(ct)), 'keys': set(), 'node': x,
+                                     'loopvar': lv['id'], 'name': vd.get('name')})
+            d['keys'] |= kn
+    return out
+
+
+def loop_kind(tu, range_expr, derived=None):
     ct = tu.sd(tu.strip(range_expr)).get('ct', '') if range_expr is not None else ''
     t = re.sub(r'\bconst\s+', '', ct).replace('&', '').strip()
     if range_expr is not None and tu.member_of_this(range_expr) == 'threadTrace':
+        return 'threads'
+    if derived and range_expr is not None and tu.ref_decl(range_expr) in derived:
         return 'threads'
     if re.match(r'^std::(unordered_map|map)<std::thread::id,', t):
         return 'threads'
@@ -1813,7 +2006,7 @@ def check_iteration(ctx, tu, f, R):
         k = n.get('kind')
         if k == 'CXXForRangeStmt':
             r, lv, body = range_init(tu, n)
-            kind = loop_kind(tu, r)
+            kind = loop_kind(tu, r, derived if fn['id'] == f['id'] else None)
             entry = {'kind': kind, 'var': lv['id'] if lv else None, 'node': n, 'fn': fn, 'range': r, 'env': env, 'body': body}
             if kind == 'events':
                 ev_loops.append((entry, list(lctx)))
@@ -1846,6 +2039,7 @@ def check_iteration(ctx, tu, f, R):
             if isinstance(c, dict) and c.get('kind'):
                 walk(c, lctx, fn, env, depth)
 
+    derived = derived_thread_containers(tu, f)
     walk(tu.body(f), [], f, {}, 0)
     good = True
     if not ev_loops:
@@ -1861,7 +2055,20 @@ def check_iteration(ctx, tu, f, R):
             continue
         th = [l for l in lctx if l['kind'] == 'threads'][-1]
         ch = [l for l in lctx if l['kind'] == 'chunks'][-1]
-        if th['range'] is None or tu.member_of_this(th['range']) != 'threadTrace':
+        dv = derived.get(tu.ref_decl(th['range'])) if th['range'] is not None else None
+        if dv is not None:
+            # the threads are first collected into a local container: it must hold one entry per registry entry
+            if dv['unique'] and 'threadName' in dv['keys']:
+                ctx.violation(R, inst, 'the threads are collected into `%s` (%s), whose key is computed from the user-settable '
+                              'thread name: threads that share a name occupy one slot, only one of them is written and all '
+                              'events of the others are missing from the log' % (dv['name'], dv['type'].split('<')[0]),
+                              tu.loc(dv['node']), key=keyb + 'threads-keyed-by-name')
+                good = False
+            elif dv['unique'] and not (dv['keys'] - {'first'} <= {('var', dv['loopvar'])} and 'first' in dv['keys']):
+                ctx.undecided(R, inst, 'the threads are collected into `%s` with a key that is not recognised as the thread id '
+                              '(depends on %s)' % (dv['name'], sorted(str(k) for k in dv['keys'])), tu.loc(dv['node']))
+                good = False
+        elif th['range'] is None or tu.member_of_this(th['range']) != 'threadTrace':
             ctx.violation(R, inst, 'the thread loop ranges over `%s`; required the registry threadTrace' % tu.show(th['range']),
                           tu.loc(th['node']), key=keyb + 'outer-range')
             good = False
